@@ -76,6 +76,10 @@ impl AmbiguousDiffMinusCounter {
     pub fn count_line(&mut self) {
         self.0 -= 1;
     }
+    // True while lines of the old file are still due in a hunk of an ambiguous (diff -u) diff.
+    pub fn lines_remaining(&self) -> bool {
+        self.0 > Self::EXPECT_DIFF_3DASH_HEADER
+    }
     fn count_from(lines: usize) -> Self {
         Self(
             lines
